@@ -666,6 +666,7 @@ Proof.
   - destruct s, b, d; cbn [emit fst snd]; split; try apply good_nil;
       repeat first [apply good_x | apply good_al | apply good_nil
                    | apply (good_paren [TX] (good_x _ good_nil))
+                   | apply (good_paren (TX :: TL :: [TX] ++ [TR]) (good_x _ (good_paren [TX] (good_x _ good_nil))))
                    | apply (good_paren [TAl parent; TX] (good_al _ _ (good_x _ good_nil)))].
   - destruct d; cbn [emit fst snd]; split;
       repeat first [apply good_nil | apply good_x | apply (good_paren [TX] (good_x _ good_nil))].
@@ -1316,12 +1317,13 @@ Proof.
     replace (N.leb alloc_bound a0) with false; [reflexivity|]. symmetry. apply N.leb_gt. exact Ha0.
 Qed.
 
-Theorem ingest_panics_only_beyond_calendar : forall rf md,
-  ingest_outcome rf md = OPanic -> (Z.leb rf md && Z.ltb max_calendar_ms md) = true.
+Theorem ingest_safe_before_last_day : forall rf md,
+  (Z.leb rf md && Z.leb last_day_start_ms md) = false -> ingest_obs rf md = [0; 1].
 Proof.
-  intros rf md H. unfold ingest_outcome in H. destruct (Z.ltb md rf) eqn:E1; [discriminate|].
-  destruct (Z.leb md max_calendar_ms) eqn:E2; [discriminate|].
-  apply Z.ltb_ge in E1. apply Z.leb_gt in E2. apply andb_true_intro. split; [apply Z.leb_le; exact E1|apply Z.ltb_lt; exact E2].
+  intros rf md H. unfold ingest_obs, ingest_fate_of.
+  destruct (Z.ltb md rf) eqn:E1; [reflexivity|]. apply Z.ltb_ge in E1.
+  replace (Z.leb rf md) with true in H by (symmetry; apply Z.leb_le; exact E1). cbn [andb] in H.
+  apply Z.leb_gt in H. replace (Z.ltb md last_day_start_ms) with true by (symmetry; apply Z.ltb_lt; exact H). reflexivity.
 Qed.
 
 (* ------------------------------------------------------------------------------------------ *)
@@ -1381,10 +1383,7 @@ Proof.
     replace (Z.eqb i 0 || Z.eqb i 1) with true by (destruct Hi; subst; reflexivity).
     cbn [Z.eqb andb].
     repeat (apply andb_true_intro; split); try reflexivity; apply Z.leb_le; lia.
-  - apply flag_nil in Hk.
-    apply (pool_run_ok [false] [ingest_outcome rf md] 1%N); [discriminate|].
-    constructor; [|constructor]. split; [|discriminate].
-    intro Hp. rewrite (ingest_panics_only_beyond_calendar _ _ Hp) in Hk. discriminate.
+  - apply flag_nil in Hk. rewrite (ingest_safe_before_last_day rf md Hk). reflexivity.
   - reflexivity.
 Qed.
 
@@ -1581,7 +1580,8 @@ Lemma frame_witnesses_w :
   known_C14 (CFrames (FFrame 4294967295 0 false) [] [] []) = [9] /\
   run_C14 (CFrames (FFrame 90 90 true) [] [FFrame 45 45 true; FFrame 4294967295 45 false; FFrame 45 45 true] []) = [1; 0; 1; 0; 0; 1] /\
   run_C14 (CIngest 1000 8210266876800000) = [2; 0] /\ known_C14 (CIngest 1000 8210266876800000) = [10] /\
-  run_C14 (CIngest 1000 8210266876799999) = [0; 1] /\ run_C14 (CIngest 1000 (-5)) = [0; 1].
+  run_C14 (CIngest 1000 8210266876799999) = [0; 0] /\ known_C14 (CIngest 1000 8210266790400000) = [10] /\
+  run_C14 (CIngest 1000 8210266790399999) = [0; 1] /\ run_C14 (CIngest 1000 (-5)) = [0; 1].
 Proof. vm_compute. repeat split; reflexivity. Qed.
 
 Lemma clause_witnesses_w :
